@@ -64,9 +64,30 @@ type ResultSet struct {
 	Repeat    int      `json:"repeat,omitempty"` // serve the row list this many times over (large result sets, compactly)
 }
 
+// Boot scripts dbVersion.GetVersionInfo's two statements (issued on a cold version cache): "" = answered,
+// "fail" = the statement fails, "rows" = the connection is lost while its rows are read
+type Boot struct {
+	Settings string `json:"settings,omitempty"`
+	Tables   string `json:"tables,omitempty"`
+}
+
 type scriptT struct {
 	sets []ResultSet
+	boot Boot
 }
+
+func bootRows(mode string, cols int) (driver.Rows, error) {
+	switch mode {
+	case "fail":
+		return nil, errors.New("scripted: bootstrap statement failed")
+	case "rows":
+		return &rowsT{rs: &ResultSet{Cols: cols, FailAfter: 0}}, nil
+	}
+	return &rowsT{rs: &ResultSet{Cols: cols, FailAfter: -1}}, nil
+}
+
+// the name under which dbVersion caches the version info: a fresh one makes the cache cold for this request
+var curDBName atomic.Pointer[string]
 
 var curScript atomic.Pointer[scriptT]
 var logSQL = os.Getenv("READFUZZ_LOGSQL") != ""
@@ -97,13 +118,19 @@ func (*conn) QueryContext(ctx context.Context, q string, args []driver.NamedValu
 	if logSQL {
 		fmt.Fprintln(os.Stderr, "SQL:", q)
 	}
+	sc := curScript.Load()
 	if strings.Contains(q, "type='update'") {
-		return &rowsT{rs: &ResultSet{Cols: 2, FailAfter: -1}}, nil
+		if sc != nil {
+			return bootRows(sc.boot.Settings, 2)
+		}
+		return bootRows("", 2)
 	}
 	if strings.Contains(q, "SHOW TABLES") {
-		return &rowsT{rs: &ResultSet{Cols: 1, FailAfter: -1}}, nil
+		if sc != nil {
+			return bootRows(sc.boot.Tables, 1)
+		}
+		return bootRows("", 1)
 	}
-	sc := curScript.Load()
 	if sc != nil {
 		for i := range sc.sets {
 			if strings.Contains(q, sc.sets[i].Match) {
@@ -169,7 +196,12 @@ type fakeDB struct {
 	db *sql.DB
 }
 
-func (f *fakeDB) GetName() string { return "verif" }
+func (f *fakeDB) GetName() string {
+	if p := curDBName.Load(); p != nil {
+		return *p
+	}
+	return "verif"
+}
 func (f *fakeDB) QueryCtx(ctx context.Context, query string, args ...any) (*sql.Rows, error) {
 	return f.db.QueryContext(ctx, query, args...)
 }
